@@ -176,3 +176,99 @@ pub fn bench_setup_r_stubbed() {
         _ => assert!(false),
     }
 }
+
+use hpke::verif_hooks::*;
+#[kani::proof]
+#[kani::unwind(20)]
+#[kani::stub(zeroize::optimization_barrier, noop_barrier)]
+#[kani::stub(hkdf::HkdfExtract::new, crate::fasthkdf::stub_extract_new)]
+#[kani::stub(hkdf::HkdfExtract::input_ikm, crate::fasthkdf::stub_input_ikm)]
+#[kani::stub(hkdf::HkdfExtract::finalize, crate::fasthkdf::stub_finalize)]
+#[kani::stub(hkdf::Hkdf::from_prk, crate::fasthkdf::stub_from_prk)]
+#[kani::stub(hkdf::Hkdf::expand_multi_info, crate::fasthkdf::stub_expand_multi_info)]
+pub fn dbg_export_ovf_stubbed() {
+    let exp: [u8; 8] = kani::any();
+    let r0 = ctx_r_from_parts::<SpyAead16, LinKdf, ToyKemLin>(&[1; 16], &[2; 12], &exp, 0, false);
+    let r1 = ctx_r_from_parts::<SpyAead16, LinKdf, ToyKemLin>(&[1; 16], &[2; 12], &exp, 5, true);
+    assert!(r0.verif_suite_id() == r1.verif_suite_id());
+    assert!(eq_bytes(r0.verif_exporter_secret(), r1.verif_exporter_secret()));
+    let mut a = [0u8; 5];
+    let mut b = [0u8; 5];
+    r0.export(&[], &mut a).unwrap();
+    r1.export(&[], &mut b).unwrap();
+    assert!(a == b);
+}
+#[kani::proof]
+#[kani::unwind(20)]
+#[kani::stub(zeroize::optimization_barrier, noop_barrier)]
+pub fn dbg_export_ovf_real() {
+    let exp: [u8; 8] = kani::any();
+    let r0 = ctx_r_from_parts::<SpyAead16, LinKdf, ToyKemLin>(&[1; 16], &[2; 12], &exp, 0, false);
+    let r1 = ctx_r_from_parts::<SpyAead16, LinKdf, ToyKemLin>(&[1; 16], &[2; 12], &exp, 5, true);
+    let mut a = [0u8; 5];
+    let mut b = [0u8; 5];
+    r0.export(&[], &mut a).unwrap();
+    r1.export(&[], &mut b).unwrap();
+    assert!(a == b);
+}
+
+macro_rules! dbg_frame {
+    ($name:ident, $symctx:expr, $symseq:expr, $mk_r:expr) => {
+        #[kani::proof]
+        #[kani::unwind(20)]
+        #[kani::stub(zeroize::optimization_barrier, noop_barrier)]
+        #[kani::stub(hkdf::HkdfExtract::new, crate::fasthkdf::stub_extract_new)]
+        #[kani::stub(hkdf::HkdfExtract::input_ikm, crate::fasthkdf::stub_input_ikm)]
+        #[kani::stub(hkdf::HkdfExtract::finalize, crate::fasthkdf::stub_finalize)]
+        #[kani::stub(hkdf::Hkdf::from_prk, crate::fasthkdf::stub_from_prk)]
+        #[kani::stub(hkdf::Hkdf::expand_multi_info, crate::fasthkdf::stub_expand_multi_info)]
+        pub fn $name() {
+            let key: [u8; 16] = kani::any();
+            let base: [u8; 12] = kani::any();
+            let exp: [u8; 8] = kani::any();
+            let seq: u64 = kani::any();
+            if $mk_r {
+                let _r = ctx_r_from_parts::<SpyAead16, LinKdf, ToyKemLin>(&key, &base, &exp, seq, false);
+            }
+            let r0 = ctx_r_from_parts::<SpyAead16, LinKdf, ToyKemLin>(&key, &base, &exp, 0, false);
+            let s1: u64 = if $symseq { kani::any() } else { 5 };
+            let r1 = ctx_r_from_parts::<SpyAead16, LinKdf, ToyKemLin>(&key, &base, &exp, s1, true);
+            let xc: [u8; 2] = kani::any();
+            let xl = if $symctx { any_len(2) } else { 1 };
+            let mut a = [0u8; 5];
+            let mut b = [0u8; 5];
+            r0.export(&xc[..xl], &mut a).unwrap();
+            r1.export(&xc[..xl], &mut b).unwrap();
+            assert!(a == b);
+        }
+    };
+}
+dbg_frame!(dbg_frame_a, false, false, false);
+dbg_frame!(dbg_frame_b, true, false, false);
+dbg_frame!(dbg_frame_c, false, true, false);
+dbg_frame!(dbg_frame_d, true, true, true);
+
+use hpke::kem::DhP256HkdfSha256;
+use hpke::Deserializable;
+#[kani::proof]
+#[kani::unwind(140)]
+pub fn dbg_tag_concrete_all() {
+    let b = [2u8; 65];
+    let r = <<DhP256HkdfSha256 as KemTrait>::PublicKey as Deserializable>::from_bytes(&b);
+    assert!(r.is_err());
+}
+#[kani::proof]
+#[kani::unwind(140)]
+pub fn dbg_tag_first_elem() {
+    // only look at what sec1 does with the first byte
+    let coords: [u8; 64] = kani::any();
+    let mut b = [0u8; 65];
+    b[0] = 2;
+    let mut i = 0;
+    while i < 64 {
+        b[1 + i] = coords[i];
+        i += 1;
+    }
+    let r = <<DhP256HkdfSha256 as KemTrait>::PublicKey as Deserializable>::from_bytes(&b);
+    assert!(r.is_err());
+}
